@@ -84,8 +84,9 @@ func verifC12Parse(out *verifOut, id int, payloads [][]byte, observe bool) {
 		suffix = "-after-error"
 	}
 	// time bound proportional to the input (the watchdog catches real hangs; this catches "slow")
-	if lim := time.Second + time.Duration(total)*100*time.Microsecond; res.elapsed > lim {
-		out.Mon(id, "c12:slow", "parsing %d bytes took %v (limit %v)", total, res.elapsed, lim)
+	// (CPU time of the child, so that a loaded machine does not raise a false alarm)
+	if lim := time.Second + time.Duration(total)*100*time.Microsecond; res.cpu > lim {
+		out.Mon(id, "c12:slow", "parsing %d bytes took %v of CPU time (limit %v, wall %v)", total, res.cpu, lim, res.elapsed)
 	}
 	order, problem := verifAmlCheckLinks(res.tree)
 	if problem != "" {
